@@ -377,6 +377,30 @@ def _loop_cursor_check(ctx, path, q, func, flat_param, rule='R5.4'):
         g = C.build(loop.body, region=True)
 
         def tr(node, st, label, cur=cur):
+            used, adv, nread, env_ = st
+            env = dict(env_)
+
+            def val(e):
+                # the value of e in terms of the names as they stood on entry to the loop body (locals bound on this path are unfolded)
+                class R(ast.NodeTransformer):
+                    def visit_Name(self, n):
+                        if isinstance(n.ctx, ast.Load) and n.id in env and n.id != cur:
+                            return ast.parse(env[n.id], mode='eval').body
+                        return n
+                import copy as _copy
+                return U.src(R().visit(_copy.deepcopy(e)))
+            used, adv, nread = _tr(node, (used, adv, nread), label, cur, val)
+            a = node.ast
+            if node.kind == 'stmt' and isinstance(a, ast.Assign) and len(a.targets) == 1 and isinstance(a.targets[0], ast.Name) and a.targets[0].id != cur:
+                env[a.targets[0].id] = val(a.value)
+            elif node.kind == 'stmt' and isinstance(a, (ast.Assign, ast.AugAssign, ast.AnnAssign)):
+                for t_ in (U.flat_targets(a) if isinstance(a, ast.Assign) else [a.target]):
+                    if isinstance(t_, ast.Name):
+                        env.pop(t_.id, None)
+                        env[t_.id] = f'__opaque_{node.id}__'
+            return (used, adv, nread, tuple(sorted(env.items())))
+
+        def _tr(node, st, label, cur, val):
             used, adv, nread = st
             a = node.ast
             eff = C.simple_effect_node(node)
@@ -389,30 +413,30 @@ def _loop_cursor_check(ctx, path, q, func, flat_param, rule='R5.4'):
                             L = None
                             if isinstance(up, ast.BinOp) and isinstance(up.op, ast.Add):
                                 if isinstance(up.left, ast.Name) and up.left.id == cur:
-                                    L = U.dump(up.right)
+                                    L = val(up.right)
                                 elif isinstance(up.right, ast.Name) and up.right.id == cur:
-                                    L = U.dump(up.left)
+                                    L = val(up.left)
                             used = used + ((L if (isinstance(s.lower, ast.Name) and s.lower.id == cur and s.step is None) else 'BAD'),)
                         else:
-                            used = used + ((U.dump(ast.Constant(value=1)) if isinstance(s, ast.Name) and s.id == cur else 'BAD'),)
+                            used = used + (('1' if isinstance(s, ast.Name) and s.id == cur else 'BAD'),)
                         nread += 1
             if node.kind == 'stmt' and isinstance(a, ast.AugAssign) and isinstance(a.target, ast.Name) and a.target.id == cur:
-                adv = adv + ((U.dump(a.value) if isinstance(a.op, ast.Add) else 'BAD'),)
+                adv = adv + ((val(a.value) if isinstance(a.op, ast.Add) else 'BAD'),)
             elif node.kind == 'stmt' and isinstance(a, ast.Assign) and any(isinstance(t, ast.Name) and t.id == cur for t in U.flat_targets(a)):
                 v = a.value
                 if isinstance(v, ast.BinOp) and isinstance(v.op, ast.Add) and isinstance(v.left, ast.Name) and v.left.id == cur:
-                    adv = adv + (U.dump(v.right),)
+                    adv = adv + (val(v.right),)
                 elif isinstance(v, ast.BinOp) and isinstance(v.op, ast.Add) and isinstance(v.right, ast.Name) and v.right.id == cur:
-                    adv = adv + (U.dump(v.left),)
+                    adv = adv + (val(v.left),)
                 else:
                     adv = adv + ('BAD',)
             return (used, adv, nread)
 
-        at, exits = C.collect(g, (tuple(), tuple(), 0), tr)
+        at, exits = C.collect(g, (tuple(), tuple(), 0, tuple()), tr)
         bad = []
         npaths = 0
         for label, states in exits.items():
-            for used, adv, nread in states:
+            for used, adv, nread, _env in states:
                 npaths += 1
                 if label == 'break':
                     continue
@@ -460,6 +484,10 @@ def r54_cursors(repo, ctx):
                 src_list = gen_.iter.id
             if isinstance(e, ast.Attribute) and e.attr == 'size' and isinstance(e.value, ast.Name) and e.value.id == tn:
                 src_list = gen_.iter.id
+        if isinstance(v, ast.Call) and isinstance(v.func, ast.Name) and v.func.id in ('list', 'tuple') and len(v.args) == 1 and isinstance(v.args[0], ast.Call) \
+                and isinstance(v.args[0].func, ast.Name) and v.args[0].func.id == 'map' and len(v.args[0].args) == 2 \
+                and isinstance(v.args[0].args[0], ast.Name) and v.args[0].args[0].id == 'len' and isinstance(v.args[0].args[1], ast.Name):
+            src_list = v.args[0].args[1].id          # list(map(len, X_new))
         ok = False
         if src_list:
             for r in rets:
